@@ -225,3 +225,34 @@ Theorem C13_model_meets_lt_monitors_pointwise : forall (cf:config) (m:mech) (mc:
   /\ mon_C13_ltkey cc (ma_lt s1) (mop_of o rep) (obs_of c1 c' o rep evs) = true.
 Proof. exact AgentMeets3.model_meets_C13_lt_pointwise. Qed.
 Print Assumptions C13_model_meets_lt_monitors_pointwise.
+
+(* ---- the attribute collection of stun-agent/src/message.rs, TRANSLATED from the Rust text (Generated/Code.v), is the model's
+   (Proofs/CodeAgreeAttrs.v): for ANY encoding enc of the abstract attributes as (wire type, payload) that keeps the wire type,
+   with conv enc mapping it over the ordinary list and the three slots,
+   - StunAttributes::add of a well-formed attribute (an `App ty _` has a type outside {8, 28, 32808}) is add_attr, on EVERY state;
+   - StunAttributes::remove::<T> on a well-formed state (the ordinary list holds none of the three types, the slots hold wire
+     types 8 / 28 / 32808) is remove, returns the element `removed` names, and never takes the panic branches of
+     `Vec::remove(index)`; add_attr and remove preserve well-formedness (CodeAgreeAttrs.attrs_wf_add / attrs_wf_remove);
+   - adding a whole application list to the empty collection gives of_list, and From<StunAttributes> for Vec<StunAttribute>
+     (hand-written after the Rust text: gen_StunAttributes_into_vec) gives the flatten the theorems above are about. *)
+From Rustun Require Import Base.GRes Generated.Code Proofs.CodeAgreeAttrs.
+Theorem C13_code_attributes_add_is_model : forall (enc : attr -> N * N),
+  (forall a : attr, fst (enc a) = wire_type a) ->
+  forall (s : attrs) (a : attr), attr_wf a ->
+  gen_StunAttributes_add (conv enc s) (enc a) = GOk (conv enc (add_attr a s)).
+Proof. exact CodeAgreeAttrs.gen_add_agrees. Qed.
+Print Assumptions C13_code_attributes_add_is_model.
+Theorem C13_code_attributes_remove_is_model : forall (enc : attr -> N * N),
+  (forall a : attr, fst (enc a) = wire_type a) ->
+  forall (s : attrs) (ty : N), attrs_wf s ->
+  gen_StunAttributes_remove (conv enc s) ty = GOk (option_map enc (removed ty s), conv enc (remove ty s)).
+Proof. exact CodeAgreeAttrs.gen_remove_agrees. Qed.
+Print Assumptions C13_code_attributes_remove_is_model.
+Theorem C13_code_attributes_of_list_is_model : forall (enc : attr -> N * N),
+  (forall a : attr, fst (enc a) = wire_type a) ->
+  forall l : list attr, app_wf l ->
+  gen_add_all (map enc l) gen_StunAttributes_default = GOk (conv enc (of_list l))
+  /\ (forall v : StunAttributes, gen_add_all (map enc l) gen_StunAttributes_default = GOk v ->
+        gen_StunAttributes_into_vec v = map enc (flatten (of_list l))).
+Proof. exact CodeAgreeAttrs.gen_of_list_agrees. Qed.
+Print Assumptions C13_code_attributes_of_list_is_model.
